@@ -1,0 +1,17 @@
+//go:build verif
+// +build verif
+
+package kubernetes
+
+import "time"
+
+// VerifShiftNotReadyTimers moves every "not ready since" instant this manager keeps into the past by d.
+// It only exists in builds with the verif tag: a check uses it to observe the two-minute grace
+// for StatefulSets that are not ready without waiting two minutes of wall-clock time.
+func (g *ReplicasManager) VerifShiftNotReadyTimers(d time.Duration) {
+	for _, t := range g.stsUpdatedTime {
+		if t != nil {
+			*t = t.Add(-d)
+		}
+	}
+}
